@@ -22,6 +22,7 @@ def run(ck):
         ck.guard("C11-R4", r4_bounded_body, ck, F)
         ck.guard("C11-R5", r5_determinism, ck, F)
         ck.guard("C11-R6", r6_offsets_from_count, ck, F)
+        ck.guard("C11-R7", r7_decoders_behind_retry, ck, F)
     from . import fixtures
     ck.guard("C11-R1", fixtures.run, ck, "C11")
     ck.trusted += ["std::io contracts (write_all, read_exact, read_to_end, take)", "byteorder", "codec crates"]
@@ -109,9 +110,83 @@ def r2_count_accepted(ck, F, R="C11-R2"):
         ck.ob(R, "counter-starts-at-zero", const_val(agg_field_expr(bb, s, rv, "count")) == 0, "a new CountWrite starts at 0", bb, s, nontrivial=False)
 
 
+def retry_adapters(ck, F, R):
+    """local types whose io::Read impl is an interruption-retrying pass-through:
+         loop { match self.0.read(buf) { Err(e) if e.kind() == Interrupted => continue, r => return r } }
+    Returns {adt path: body}.  Each candidate (a local impl of io::Read::read) is checked; the
+    obligations are recorded under rule R."""
+    out = {}
+    for b in F.user_bodies():
+        if not (b.path.startswith("<") and b.path.endswith(" as std::io::Read>::read")):
+            continue
+        adt = b.path[1:].split(" as ")[0].split("<")[0]
+        raws = [(s, c) for s, c, t in b.calls() if c and c["path"] == "std::io::Read::read"]
+        ok_one = len(raws) == 1
+        ok_args = ok_loop = ok_ret = ok_retry = False
+        if ok_one:
+            s = raws[0][0]
+            a = b.arg_exprs(s)
+            recv = a[0].strip()
+            ok_args = recv.k == "field" and recv.a[0].strip().k == "arg" and recv.a[0].strip().x["i"] == 1 and a[1].strip().k == "arg" and a[1].strip().x["i"] == 2
+            ok_loop = b.in_loop(s.bb)
+            alts = flat_alts(b.expr_at_return())
+            ok_ret = bool(alts) and all(x.strip().k == "call" and x.strip().x.get("site") == s for x in alts)
+            # the only way back to the read is the `kind() == Interrupted` edge of its own error
+            eqs = []
+            for s2, c2, t2 in b.calls():
+                if c2 and c2["path"].endswith("PartialEq::eq") and "ErrorKind" in (c2.get("inst", "") + c2.get("resolved", "")):
+                    x, y = b.arg_exprs(s2)
+                    kinds = [z for z in (x, y) if any(w.k == "call" and w.x["path"].endswith("io::Error::kind") and any(v.k == "call" and v.x.get("site") == s for v in w.walk()) for w in z.walk())]
+                    consts = [z for z in (x, y) if any(w.k == "text" and w.x.get("variant") == "Interrupted" for w in z.walk())]
+                    if kinds and consts:
+                        eqs.append(s2)
+            if len(eqs) == 1:
+                ed = bool_edges(b, value_site=eqs[0])
+                if ed is not None:
+                    # without the true edge of that comparison the read call cannot be reached again from itself
+                    reach = reachable_without(b, banned_edges={(ed[0], ed[1])}, start=b.succs(s.bb)[0] if b.succs(s.bb) else s.bb)
+                    ok_retry = s.bb not in reach and s.bb in b.reachable_from(ed[1])
+        ok = ok_one and ok_args and ok_loop and ok_ret and ok_retry
+        ck.ob(R, f"retry-adapter/{adt}", ok, f"{adt}'s io::Read::read is an interruption-retrying pass-through: one inner read on (self.0, buf) [{ok_one and ok_args}], inside a loop [{ok_loop}], every returned value is that call's own result [{ok_ret}], and the loop continues only when its error kind == Interrupted [{ok_retry}]", b)
+        if ok:
+            out[adt] = b
+    return out
+
+
+def r7_decoders_behind_retry(ck, F, R="C11-R7"):
+    """the caller's reader reaches a codec crate's decoder only through the interruption-retrying adapter
+    (or not at all: decoding from memory) — a decoder that cannot resume after ErrorKind::Interrupted would
+    otherwise make the result depend on where a read was interrupted (found with lz4_flex's FrameDecoder)"""
+    ads = retry_adapters(ck, F, R)
+    dn = F.body(A("decompress"))
+    reader = dn.arg_name(2)
+    n = 0
+    for s, c, t in dn.calls():
+        if c is None:
+            continue
+        p = callee_name(c)
+        helper = p.startswith("compression::") and p.endswith("_decompress")
+        rte = p.endswith("Read::read_to_end")
+        if not helper and not rte:
+            continue
+        n += 1
+        a0 = dn.arg_exprs(s)[0]
+        st = a0.strip()
+        wrapped = st.k == "agg" and st.x.get("adt") in ads and len(st.a) == 1 and is_arg(st.a[0], reader)
+        in_memory = not a0.mentions_arg(reader)
+        if rte and not wrapped and is_arg(a0, reader):
+            wrapped = True      # std's own read_to_end retries Interrupted: the raw reader is fine there
+        ck.ob(R, f"reader-behind-retry/{p.rsplit('::', 1)[-1]}", wrapped or in_memory, f"{p.rsplit('::', 1)[-1]} receives {a0.show()[:70]}: the caller's reader wrapped in the retry adapter" + ("" if wrapped or in_memory else " — NOT: the raw reader is handed to a decoder; an interrupted read can corrupt or abort the decoding"), dn, s)
+    ck.floor(R, "reader hand-over sites in decompress", n, 6, F.config)
+    callers = sorted({b.path for b in F.user_bodies() for s, c, t in b.calls() if c and callee_name(c).startswith("compression::") and callee_name(c).endswith("_decompress")})
+    ck.ob(R, "decoders-only-from-decompress", callers == [A("decompress")], f"the *_decompress helpers are called only from decompress ({callers})", config=F.config)
+
+
 def r3_read_exact(ck, F, R="C11-R3"):
     raws = raw_io_calls(F, "read")
-    ck.ob(R, "no-raw-read", not raws, f"io::Read::read is never called in library code ({[(b.path, b.loc(s)) for b, s, c in raws]})", config=F.config)
+    ads = retry_adapters(ck, F, R)
+    outside = [(b.path, b.loc(s)) for b, s, c in raws if b.path not in {x.path for x in ads.values()}]
+    ck.ob(R, "no-raw-read", not outside, f"io::Read::read is called only inside interruption-retrying adapters ({sorted(ads)}); elsewhere: {outside}", config=F.config)
     inv = {}
     for b in F.user_bodies():
         for s, c, t in b.calls():
@@ -141,7 +216,7 @@ def r4_bounded_body(ck, F, R="C11-R4"):
         ck.ob(R, f"decoder-input/{stem}", not raw, f"{p} reads its input through {[n.rsplit('::', 2)[-2:] for n in names if 'read' in n.lower() or 'decode' in n.lower() or 'Decoder' in n][:4]}", d, nontrivial=False)
     dn = F.body(A("decompress"))
     rt = [s for s, c, t in calls(dn, "Read::read_to_end")]
-    ck.ob(R, "uncompressed-body-read-to-end", len(rt) == 1 and is_arg(dn.arg_exprs(rt[0])[0], dn.arg_name(2)) and is_arg(dn.arg_exprs(rt[0])[1], dn.arg_name(3)), "CompressionType::None: data.read_to_end(out) on the bounded reader", dn)
+    ck.ob(R, "uncompressed-body-read-to-end", len(rt) == 1 and dn.arg_exprs(rt[0])[0].mentions_arg(dn.arg_name(2)) and is_arg(dn.arg_exprs(rt[0])[1], dn.arg_name(3)), "CompressionType::None: data.read_to_end(out) on the bounded reader", dn)
 
 
 NONDET = ("std::collections::HashMap", "std::collections::HashSet", "std::collections::hash_map", "std::hash::RandomState", "std::time::", "std::thread::current", "std::thread::ThreadId", "rand::", "std::env::", "std::process::id", "getrandom")
